@@ -151,8 +151,10 @@ func (x *Exec) monitorEnter(s *State, lock string, pos token.Pos) {
 	if x.fn != x.eng.curTop {
 		return
 	}
+	snap := s.clone()
+	snapEnv := x.specEnvAt(snap, pos)
 	for _, g := range mon.guarded {
-		x.havocTarget(s, env, g)
+		x.havocTarget(s, snapEnv, g)
 	}
 	for _, inv := range mon.invs {
 		s.assume(env.evalBool(inv))
